@@ -5,6 +5,7 @@ CONSTANTS Pipes = {1, 2}
           MaxNow = 220
           Ticks = {20}
           Resend = 30
+          Resend2 = 30
           Tick = 10
           AllowRetune = FALSE
           FreeByClone = TRUE
